@@ -86,6 +86,20 @@ struct CostEngine : EngineBase {
             c = cost([&] { (void)s->erase(*e); });
             c = cost([&] { (void)s->emplace_hint(s->begin() + lb, key, 779u); }); judge("emplace_hint(correct hint)", c, 6, n, key); if (c > max_hint) max_hint = c;
             c = cost([&] { (void)s->erase(*e); });
+            // extract / re-insert idiom: insert(hint, node) with the correct hint
+            {
+              bool ins2 = false;
+              c = cost([&] { ins2 = s->insert(*e).second; });
+              typename Set::node_type nh;
+              c = cost([&] { nh = s->extract(*e); });
+              judge("extract(key)", c, 2 * ceil_log2(n + 2) + 4, n + 1, key);
+              size_t lb2 = 0;
+              { MonScope m; lb2 = static_cast<size_t>(cs.lower_bound(*e) - cs.begin()); }
+              c = cost([&] { (void)s->insert(s->begin() + lb2, std::move(nh)); });
+              judge("insert(correct hint, node)", c, 6, n, key);
+              if (c > max_hint) max_hint = c;
+              c = cost([&] { (void)s->erase(*e); });
+            }
             if (static_cast<size_t>(cs.size()) != n) violation("C19", "cost.harness_restore", "set not restored");
           } else {
             c = cost([&] { (void)s->insert(*e); }); judge("insert(present)", c, bound, n, key);
